@@ -1,6 +1,7 @@
 import GeosModel.Proofs.Num.FmtLemmas
 import GeosModel.Proofs.Num.ExactLemmas
 import GeosModel.Proofs.WKT.Roundtrip
+import GeosModel.Model.WKT.Cxx
 /-!
 # C10 — written WKT is re-readable and equals the input to stated precision: the number formatter
 
@@ -384,5 +385,63 @@ theorem wkt_mixed_dims_rejected :
       isParseError (readToks (writeToks cfg g)) = true := by
   refine ⟨{}, .collection [.point ⟨true, false, [⟨0x3ff0000000000000, 0x4000000000000000, 0x4008000000000000, nanBits⟩]⟩,
     .point ⟨false, false, [⟨0x3ff0000000000000, 0x4000000000000000, nanBits, nanBits⟩]⟩], rfl, ?_, ?_, ?_⟩ <;> decide
+
+end GeosModel.WKT
+
+/-!
+# C10 — configuration and tags: what the regenerated setters / loops guarantee (models of `Model/WKT/Cxx.lean`)
+-/
+namespace GeosModel.WKT
+open GeosModel
+
+/-- **the setter's clamp.**  Whatever value is passed to `setRoundingPrecision`, ordinates are written with the precision model's
+digits when it is ≤ −1 and with exactly that many decimals otherwise (`clampPrecision` = the regenerated setter,
+`C10Gen.gen_setRoundingPrecision_eq`) -/
+theorem decimalPlaces_clamped (cfg : Cfg) (p : Int) :
+    decimalPlaces { cfg with precision := clampPrecision p } = if p ≤ -1 then cfg.pmDigits.toNat else p.toNat := by
+  unfold decimalPlaces clampPrecision
+  by_cases h : p < -1
+  · have : p ≤ -1 := by omega
+    simp [h, this]
+  · by_cases h2 : p = -1
+    · simp [h2]
+    · have : ¬ p ≤ -1 := by omega
+      simp [h, h2, this]
+
+/-- **dimension dropping stays within the output dimension and only drops.**  For every output dimension `setOutputDimension`
+accepts, the ordinates a tagged geometry is written with (`capOrds` = the regenerated loop of `appendGeometryTaggedText`,
+`C10Gen.gen_ordinates_eq`) number at most `d`, are among the geometry's own, and are all of them when they fit. -/
+theorem capOrds_within (d : Nat) (hd : 2 ≤ d) (o : Ords) :
+    2 + (capOrds d o).z.toNat + (capOrds d o).m.toNat ≤ d ∧
+    ((capOrds d o).z = true → o.z = true) ∧ ((capOrds d o).m = true → o.m = true) ∧
+    (2 + o.z.toNat + o.m.toNat ≤ d → capOrds d o = o) := by
+  rcases o with ⟨z, m⟩
+  have hd' : d = 2 ∨ d = 3 ∨ 4 ≤ d := by omega
+  rcases hd' with rfl | rfl | h4
+  · cases z <;> cases m <;> decide
+  · cases z <;> cases m <;> decide
+  · have n1 : ¬ d < 4 := by omega
+    have n2 : ¬ d < 3 := by omega
+    have n3 : ¬ d < 2 := by omega
+    cases z <;> cases m <;> simp [capOrds, n1, n2, n3] <;> omega
+
+/-- `setOutputDimension` stores only 2, 3 or 4 (so `capOrds_within` applies to every reachable writer state) -/
+theorem outputDimension_checked (d d' : Nat) (h : checkOutputDimension d = .ok d') : d' = d ∧ 2 ≤ d' ∧ d' ≤ 4 := by
+  unfold checkOutputDimension at h
+  split at h
+  · cases h
+  · injection h with h; omega
+
+/-- the text `appendOrdinateText` writes (`ordTextStr`, `C10Gen.gen_appendOrdinateText_eq`) is what `render` lays out for the tag
+tokens `ordText` in front of whatever follows -/
+theorem render_ordText (cfg : Cfg) (o : Ords) (t : Tok) (r : List Tok) :
+    render cfg (ordText cfg o ++ t :: r) = (ordTextStr cfg o).toList ++ render cfg (t :: r) := by
+  rcases o with ⟨z, m⟩
+  rcases cfg with ⟨tr, p, od, o3, pd⟩
+  cases o3 <;> cases z <;> cases m <;> simp [ordText, ordTextStr, render, spaceAfter, tokStr, String.join]
+
+/-! non-vacuity: 3 is accepted, 5 is not; an XYZM geometry written at dimension 3 keeps Z -/
+example : checkOutputDimension 3 = .ok 3 ∧ checkOutputDimension 5 = .error "IllegalArgumentException" := ⟨rfl, rfl⟩
+example : capOrds 3 ⟨true, true⟩ = ⟨true, false⟩ ∧ capOrds 2 ⟨false, true⟩ = ⟨false, false⟩ := by decide
 
 end GeosModel.WKT
